@@ -539,6 +539,9 @@ func bExch(intp *Interpreter) error {
 
 func bExecuteonly(intp *Interpreter) error {
 	// not implemented
+	if len(intp.Stack) < 1 {
+		return intp.e(eStackunderflow, "executeonly: not enough arguments")
+	}
 	return nil
 }
 
@@ -984,6 +987,9 @@ func bNe(intp *Interpreter) error {
 
 func bNoaccess(intp *Interpreter) error {
 	// not implemented
+	if len(intp.Stack) < 1 {
+		return intp.e(eStackunderflow, "noaccess: not enough arguments")
+	}
 	return nil
 }
 
@@ -1130,6 +1136,9 @@ func bPutinterval(intp *Interpreter) error {
 
 func bReadonly(intp *Interpreter) error {
 	// not implemented
+	if len(intp.Stack) < 1 {
+		return intp.e(eStackunderflow, "readonly: not enough arguments")
+	}
 	return nil
 }
 
